@@ -58,6 +58,8 @@ pub enum Req {
     DropThunk(u32),
     DropValue(u32),
     SetMaxStack(usize),
+    /// `Program::add_ext_var` in mid-history: a CODE variable, lazy, evaluated by whichever request needs it first
+    AddExtVar { name: String, code: String },
 }
 
 #[derive(Clone, Debug, PartialEq)]
@@ -97,6 +99,7 @@ impl Op {
             Req::DropThunk(h) => vec![("op", Json::str("drop_thunk")), ("handle", u(h))],
             Req::DropValue(h) => vec![("op", Json::str("drop_value")), ("handle", u(h))],
             Req::SetMaxStack(n) => vec![("op", Json::str("set_max_stack")), ("n", Json::int(*n as i64))],
+            Req::AddExtVar { name, code } => vec![("op", Json::str("add_ext_var")), ("name", Json::str(name)), ("code", Json::str(code))],
         };
         if !self.fault.is_none() {
             f.push(("fault", self.fault.to_json()));
@@ -130,6 +133,7 @@ impl Op {
             "drop_thunk" => Req::DropThunk(u("handle")?),
             "drop_value" => Req::DropValue(u("handle")?),
             "set_max_stack" => Req::SetMaxStack(j.get("n")?.as_u64()? as usize),
+            "add_ext_var" => Req::AddExtVar { name: j.get("name")?.as_str()?.to_string(), code: j.get("code")?.as_str()?.to_string() },
             _ => return None,
         };
         let fault = j.get("fault").map(Fault::from_json).unwrap_or_default();
@@ -409,6 +413,12 @@ impl<'p> Exec<'p> {
             Req::SetMaxStack(n) => {
                 self.max_stack = *n;
                 self.ctx.program.set_max_stack(*n);
+                none()
+            }
+            Req::AddExtVar { name, code } => {
+                if !self.ctx.add_ext(name, true, code) {
+                    res.noop = true;
+                }
                 none()
             }
         }
